@@ -9,6 +9,7 @@ verus! {
 //@@ INCLUDE lib/prelude.rs
 //@@ INCLUDE lib/sign.rs
 //@@ INCLUDE lib/div_dword_stubs.rs
+//@@ INCLUDE lib/div_post_spec.rs
 //@@ INCLUDE lib/div_dc_stubs.rs
 //@@ INCLUDE lib/div_simple_lemmas.rs
 //@@ INCLUDE lib/div_dc_lemmas.rs
